@@ -286,6 +286,20 @@ def type_name(
         return str(typ)
 
 
+def is_importable_type(typ: Any) -> bool:
+    # whether the dotted name rendered by type_name() leads back to the type
+    for arg in get_args(typ):
+        if not is_importable_type(arg):
+            return False
+    origin = get_type_origin(typ)
+    if isinstance(origin, type) and origin is not NoneType:
+        obj: Any = sys.modules.get(origin.__module__)
+        for part in origin.__qualname__.split("."):
+            obj = getattr(obj, part, None)
+        return obj is origin
+    return True
+
+
 def is_special_typing_primitive(typ: Any) -> bool:
     try:
         issubclass(typ, object)
